@@ -56,6 +56,9 @@ def level(ck):
     en = F.enums.get("QtMsgType")
     ck.require(en is not None, "enum QtMsgType not found")
     val = {e["name"]: e["value"] for e in en["enumerators"]}
+    if level_by_cases(ck, F, pr, fl, val):
+        level_threshold_writers(ck, F)
+        return
     sws = pr.find(lambda n: n.get("k") == "switch")
     ck.require(len(sws) == 1, "LevelFilter::priority is no longer a single switch")
     sw = sws[0]
@@ -106,12 +109,7 @@ def level(ck):
     else:
         ck.ob("C16-O1", sitestr(fl, rs[0]), not bad, "%d/%d (type, threshold) pairs evaluated on the extracted table agree with severity >= threshold" % (n_eval, n_eval) if not bad else
               "wrong verdicts: %s" % bad[:6], key="LevelFilter::filter|verdict")
-    ws = [w for w in field_writes(F, "QtLogger::LevelFilter::m_minLevel") if w[2] != "ctor-init"]
-    inits = [w for w in field_writes(F, "QtLogger::LevelFilter::m_minLevel") if w[2] == "ctor-init"]
-    for f, n, how in inits:
-        ok = is_ref_to(n, f.params[0]["decl"]) if f.params else False
-        ck.ob("C16-O1", sitestr(f), ok, "threshold is the constructor argument", key="LevelFilter|ctor")
-
+    level_threshold_writers(ck, F)
 
 def duplicate(ck):
     F = ck.facts
@@ -284,3 +282,53 @@ def seq(ck):
     for f2, n2, how2 in field_writes(F, FIELD):
         if f2.id != fn.id and how2 != "ctor-init":
             ck.notes.append("m_count also written (%s) in %s" % (how2, f2.sig))
+
+
+def level_threshold_writers(ck, F):
+    fl = F.fn("QtLogger::LevelFilter::filter")
+    ws = [w for w in field_writes(F, "QtLogger::LevelFilter::m_minLevel") if w[2] != "ctor-init"]
+    inits = [w for w in field_writes(F, "QtLogger::LevelFilter::m_minLevel") if w[2] == "ctor-init"]
+    for f, n, how in inits:
+        ok = is_ref_to(n, f.params[0]["decl"]) if f.params else False
+        ck.ob("C16-O1", sitestr(f), ok, "threshold is the constructor argument", key="LevelFilter|ctor")
+
+
+
+def level_by_cases(ck, F, pr, fl, val):
+    """C16-O1 by cases (engine/conc.py): priority() evaluated for the five message types and filter() for the 25 (type, threshold)
+    pairs, whatever form the table has (switch, constant array, if-chain). False when the code leaves the evaluable fragment."""
+    from engine.conc import Conc, Unknown
+    raw_pr = F.fn("QtLogger::LevelFilter::priority", flat=False)
+    raw_fl = F.fn("QtLogger::LevelFilter::filter", flat=False)
+    prio = {}
+    try:
+        for name in SEVERITY:
+            prio[name] = Conc(F).call_fn(raw_pr, [val[name]])
+    except Unknown as e:
+        ck.notes.append("LevelFilter::priority could not be tabulated (%s): decided by the switch rule" % e)
+        return False
+    if not all(isinstance(v, int) for v in prio.values()):
+        return False
+    distinct = len(set(prio.values())) == 5
+    ck.ob("C16-O1", sitestr(pr), distinct, "all five message types have their own rank: %s" % prio if distinct else "message types share a rank: %s" % prio, key="LevelFilter::priority|missing-case")
+    mono = all(prio[SEVERITY[i]] < prio[SEVERITY[i + 1]] for i in range(4))
+    ck.ob("C16-O1", sitestr(pr), mono, "severity table %s is strictly increasing debug<info<warning<critical<fatal" % prio if mono else
+          "severity table %s does not rank debug<info<warning<critical<fatal" % prio, key="LevelFilter::priority|order")
+    bad, n_eval = [], 0
+    try:
+        for t in SEVERITY:
+            for th in SEVERITY:
+                def leaf(n, env, t=t):
+                    if is_call(n, LM + "::type") and obj_is_param(skip_copies(n), raw_fl, 0):
+                        return val[t]
+                    return None
+                got = Conc(F, leaf=leaf).call_fn(raw_fl, ["<message>"], {"QtLogger::LevelFilter::m_minLevel": val[th]})
+                n_eval += 1
+                if bool(got) != (SEVERITY.index(t) >= SEVERITY.index(th)):
+                    bad.append("(%s, threshold %s) -> %s" % (t, th, bool(got)))
+    except Unknown as e:
+        ck.ob("C16-O1", sitestr(fl), None, "LevelFilter::filter could not be tabulated: %s" % e)
+        return True
+    ck.ob("C16-O1", sitestr(fl), not bad, "%d/%d (type, threshold) pairs evaluated from the source agree with severity >= threshold" % (n_eval, n_eval) if not bad else
+          "wrong verdicts: %s" % bad[:6], key="LevelFilter::filter|verdict")
+    return True
